@@ -67,6 +67,9 @@ def templates():
     t.append(D([], allowed=0))
     # T7: a required multi and a toggle with int default
     t.append(D([O("m", "need", "N"), O("t", "lvl", "L", dflt=3)], allowed=3))
+    # T8: letters that are digits, and toggle letters whose bundles read like numbers (-11, -1e1, -inf, -nan)
+    t.append(D([O("t", "one", "1"), O("t", "inf", "i"), O("o", "nine", "9", flag=True), O("t", "nan", "n"), O("t", "fff", "f"),
+                O("t", "aaa", "a"), O("t", "eee", "e", flag=True)], allowed=None))
     return t
 
 
@@ -90,6 +93,12 @@ def alphabet(d):
             a += ["-" + tl + ol, "-" + ol + tl, "-" + tl + ol + "=w"]
     if len(togletters) >= 2:
         a.append("-" + togletters[0] + togletters[1] + togletters[0])
+    # bundles of declared toggle letters that read like numbers; number-like tokens as such
+    for w in ("inf", "nan", "1e1", "111", "infinity"):
+        if all(ch in togletters for ch in w):
+            a.append("-" + w)
+    if "1" in togletters or "9" in optletters:
+        a += ["-5", "-1.5", "-0x1f"]
     seen, out = set(), []
     for x in a:
         if x not in seen:
